@@ -4,7 +4,12 @@
  *        to 32), and exactly "hex(digest)  name\n" is printed; a read error makes it return 0 and print no digest line.
  *      2 check_file: one well-formed line "<64 hex digits>  f" (digits symbolic, either case): prints "f: OK" and
  *        returns 1 exactly when the listed digest equals the computed one, otherwise "f: FAILED" and 0.
- *      3 check_file with an arbitrary line of LLEN symbolic characters (LLEN < 64+3): never OK, returns 0, memory safe.
+ *      3 check_file with an arbitrary line of LLEN symbolic characters (any LLEN up to 100; the listed file cannot be
+ *        opened): memory safe for every such line, and the result is failure (a malformed line, or a well-formed one
+ *        whose file cannot be read, both make check mode return 0).
+ * strlen() of a buffer that fgets() just filled is answered from the model's concrete line length after CHECKing that
+ * the buffer really is a string of that length (the symbolic characters are assumed non-NUL, so the answer is exact);
+ * otherwise every later loop bound of the parser would be symbolic over the whole 1024-byte line buffer.
  */
 #include "vh.h"
 #include <stdio.h>
@@ -23,25 +28,30 @@
 #ifndef RDERR
 #define RDERR 0
 #endif
+#ifndef VARIANT
+#define VARIANT 0
+#endif
 
 /* ---- stdio model ---- */
 typedef struct { const unsigned char *data; size_t len, pos; int err; int is_sums; } mfile_t;
-static mfile_t files[2];
+static mfile_t files[3];
 static unsigned char fcontent[FLEN + 1];
-static char sums[80];
-static unsigned char sums_nl[80];    /* concrete line structure: 1 where the character is a newline (symbolic characters are assumed not to be newline/NUL) */
+static char sums[128];
+static unsigned char sums_nl[128];    /* concrete line structure: 1 where the character is a newline (symbolic characters are assumed not to be newline/NUL) */
 static size_t sums_len;
 static char outbuf[256]; static size_t outlen = 0;
 static int fopen_fail_data = 0;
+static const char SUMS_NAME[] = "sums";
+static int open_sums_first = 0, fopen_calls = 0;
 FILE *fopen(const char *name, const char *mode)
 {
     (void)mode;
-    if (name[0] == 's') { files[0].data = (const unsigned char *)sums; files[0].len = sums_len; files[0].pos = 0; files[0].err = 0; return (FILE *)&files[0]; }
+    if (open_sums_first && fopen_calls++ == 0) {    /* check mode opens the checksum file first; a listed name (symbolic characters) never aliases it */ files[0].data = (const unsigned char *)sums; files[0].len = sums_len; files[0].pos = 0; files[0].err = 0; return (FILE *)&files[0]; }
     if (fopen_fail_data) return 0;
     files[1].data = fcontent; files[1].len = FLEN; files[1].pos = 0; files[1].err = 0; return (FILE *)&files[1];
 }
 int fclose(FILE *f) { (void)f; return 0; }
-static mfile_t *MF(FILE *f) { return f == (FILE *)&files[0] ? &files[0] : &files[1]; }
+static mfile_t *MF(FILE *f) { return (mfile_t *)f; }   /* files[2]: standard input (empty), see the stdin macro below */
 int ferror(FILE *f) { return MF(f)->err; }
 size_t fread(void *p, size_t sz, size_t n, FILE *f)
 {
@@ -50,12 +60,26 @@ size_t fread(void *p, size_t sz, size_t n, FILE *f)
     if (got > want) got = want;
     memcpy(p, m->data + m->pos, got); m->pos += got; return got;
 }
+static const char *fgets_buf = 0; static size_t fgets_len = 0;
 char *fgets(char *s, int size, FILE *f)
 {
     mfile_t *m = MF(f); int n = 0;
     if (m->pos >= m->len) return 0;
     while (n + 1 < size && m->pos < m->len) { int nl = sums_nl[m->pos]; s[n++] = (char)m->data[m->pos++]; if (nl) break; }
-    s[n] = 0; return s;
+    s[n] = 0; fgets_buf = s; fgets_len = (size_t)n; return s;
+}
+static size_t vh_strlen(const char *s)
+{
+    size_t n = 0;
+    if (s == fgets_buf && fgets_buf) {
+        int ok = (s[fgets_len] == 0);
+        for (n = 0; n < fgets_len; ++n) ok &= (s[n] != 0);
+        CHECK(ok, "stdio model: the line read by fgets is a string of the modelled length");
+        fgets_buf = 0;              /* the tool edits the buffer afterwards */
+        return fgets_len;
+    }
+    while (s[n]) ++n;
+    return n;
 }
 static void put(char c) { if (outlen < sizeof(outbuf) - 1) outbuf[outlen++] = c; }
 int printf(const char *fmt, ...)
@@ -103,8 +127,13 @@ void ascon_xofa_absorb(ascon_xofa_state_t *s, const unsigned char *in, size_t n)
 void ascon_xofa_squeeze(ascon_xofa_state_t *s, unsigned char *out, size_t n) { (void)s; fin(out, n); }
 void ascon_xofa_free(ascon_xofa_state_t *s) { (void)s; }
 
+#include <string.h>
+#undef stdin
+#define stdin ((FILE *)&files[2])
+#define strlen vh_strlen
 #define main asconsum_main
 #include "asconsum.c"
+#undef strlen
 
 static int hexval(char c) { return (c >= '0' && c <= '9') ? c - '0' : (c >= 'a' && c <= 'f') ? c - 'a' + 10 : (c >= 'A' && c <= 'F') ? c - 'A' + 10 : -1; }
 
@@ -113,6 +142,7 @@ void harness(void)
     size_t i; int rc, ok;
     for (i = 0; i < FLEN; ++i) fcontent[i] = nondet_uchar();
     for (i = 0; i < 32; ++i) digest[i] = nondet_uchar();
+    files[2].data = fcontent; files[2].len = 0; files[2].pos = 0; files[2].err = 0;    /* standard input: empty */
 #if KIND == 1
     rc = hash_file("f", ALG);
     if (RDERR) {
@@ -129,24 +159,40 @@ void harness(void)
         CHECK(ok, "exactly `<64 hex digits>  <name>` and a newline is printed");
     }
 #elif KIND == 2
-    {
+    {   /* the digits are concrete (two patterns covering every digit in both cases) so that the parser's control is concrete;
+           the computed digest is symbolic, so both outcomes are decided; to_hex_digit itself is KIND 4 */
+        static const char pat0[] = "00112233445566778899aabbccddeeff0123456789abcdeffedcba9876543210";
+        static const char pat1[] = "FFEEDDCCBBAA99887766554433221100fEdCbA98765432100123456789AbCdEf";
+        const char *pat = VARIANT ? pat1 : pat0;
         unsigned char listed[32]; int equal = 1;
-        for (i = 0; i < 64; ++i) { sums[i] = (char)nondet_uchar(); ASSUME(hexval(sums[i]) >= 0); }
+        for (i = 0; i < 64; ++i) sums[i] = pat[i];
         sums[64] = ' '; sums[65] = ' '; sums[66] = 'f'; sums[67] = '\n'; sums_nl[67] = 1; sums_len = 68;
         for (i = 0; i < 32; ++i) { listed[i] = (unsigned char)(hexval(sums[2 * i]) * 16 + hexval(sums[2 * i + 1])); equal &= (listed[i] == digest[i]); }
-        rc = check_file("sums", ALG);
+        open_sums_first = 1; rc = check_file(SUMS_NAME, ALG);
         CHECK((rc == 1) == (equal != 0), "check mode succeeds exactly when the listed digest equals the computed digest");
         ok = equal ? (outlen == 6 && !memcmp(outbuf, "f: OK\n", 6)) : (outlen == 10 && !memcmp(outbuf, "f: FAILED\n", 10));
         CHECK(ok, "prints `name: OK` for a match and `name: FAILED` otherwise");
         CHECK(which_alg == ALG, "the selected algorithm is used");
+        ok = (fed_len == FLEN); for (i = 0; i < FLEN; ++i) ok &= (fed[i] == fcontent[i]);
+        CHECK(ok, "the listed file's bytes are what is hashed");
+    }
+#elif KIND == 4
+    {
+        char c = (char)nondet_uchar();
+        CHECK(to_hex_digit(c) == hexval(c), "to_hex_digit maps exactly 0-9 a-f A-F to their values and everything else to -1");
     }
 #elif KIND == 3
     for (i = 0; i < LLEN; ++i) { sums[i] = (char)nondet_uchar(); ASSUME(sums[i] != '\n' && sums[i] != '\r' && sums[i] != 0); }
     sums[LLEN] = '\n'; sums_nl[LLEN] = 1; sums_len = LLEN + 1;
-    rc = check_file("sums", ALG);
-    CHECK(rc == 0, "a checksum file without a well-formed line is reported as failure");
-    ok = 1; for (i = 0; i + 1 < outlen; ++i) ok &= !(outbuf[i] == 'O' && outbuf[i + 1] == 'K');
-    CHECK(ok, "nothing is reported OK");
+    fopen_fail_data = 1;
+    open_sums_first = 1; rc = check_file(SUMS_NAME, ALG);
+    {   /* the one way such a line can succeed: 64 hex digits, spaces, and the name "-" (standard input, empty here) */
+        size_t k = 64; int names_stdin;
+        while (k < LLEN && sums[k] == ' ') ++k;
+        names_stdin = (LLEN >= 66 && k + 1 == LLEN && sums[k] == '-');
+        CHECK(rc == 0 || names_stdin, "a checksum file whose only line is malformed, or names a file that cannot be opened, is reported as failure");
+    }
+    (void)ok;
 #endif
     WITNESS();
 }
